@@ -16,13 +16,13 @@ func Run(c *vh.Ctx) {
 		Profile: func(r *rand.Rand) scen.Profile {
 			return scen.Profile{
 				Steps: 60 + r.Intn(60), Cluster: r.Intn(4) == 0, Hosted: r.Intn(4) == 0, Delegated: []float64{0, 0.3, 0.5}[r.Intn(3)], MaxRevisions: 1 + r.Intn(3),
-				Weights: scen.WeightsWith(map[string]int{"reconcile": 45, "workload": 8, "adv-finalizer": 8, "adv-reown": 3, "adv-delete": 2, "user-archive": 6, "user-delete": 5, "gc": 6, "restart": 3, "fault": 5, "adv-interpose": 3, "user-next-revision": 3}),
+				Weights: scen.WeightsWith(map[string]int{"reconcile": 45, "workload": 8, "adv-finalizer": 8, "adv-reown": 3, "adv-delete": 2, "user-archive": 6, "user-delete": 5, "gc": 6, "restart": 3, "fault": 5, "adv-interpose": 3, "user-next-revision": 3, "adv-delete-phase": 3}),
 				CPs:     []string{"", "None", "IfNoController"}, FinalQuiesce: 6,
 			}
 		},
 		Monitors:          func() []scen.Monitor { return []scen.Monitor{&monitors.C04{}} },
 		NonTrivialCounter: "c04_teardown_deletes",
 		Gates:             []chkfam.Gate{{"c04_teardown_deletes", 300}, {"c04_delegated_teardown_deletes", 10}, {"c04_finalizer_removals", 100}, {"c04_archived_true", 30}, {"c04_archival_in_progress_status", 10}},
-		Rule:              "run = random ObjectSets (local, delegated and hosted phases) rolled out and then archived or deleted, with foreign finalizers delaying deletion, objects taken over or removed by third parties, garbage collector steps, other revisions alive and operator restarts; at every delete issued by a teardown pass the store is inspected for later-phase objects still controlled, and at every finalizer removal / Archived=True for anything still controlled; non-trivial = at least one teardown delete; distinct = distinct step logs",
+		Rule:              "run = random ObjectSets (local, delegated and hosted phases) rolled out and then archived or deleted, with foreign finalizers delaying deletion, objects taken over or removed by third parties, garbage collector steps, delegated phase objects deleted out of band and re-created under a new UID right before the teardown, other revisions alive and operator restarts; at every delete issued by a teardown pass the store is inspected for later-phase objects still controlled, and at every finalizer removal / Archived=True for anything still controlled; non-trivial = at least one teardown delete; distinct = distinct step logs",
 	})
 }
